@@ -125,8 +125,8 @@ def emitter_templates(p: Program, flags: dict):
     doms = emitter_domains(p, fi)
 
     def fd(e, interp, st):
-        if isinstance(e, ast.Name) and e.id in doms:
-            return doms[e.id][0]
+        if src(e) in doms:
+            return doms[src(e)][0]
         return f"UNKNOWN({short(e, 30)})"
     params = fi.params
     extra = {}
@@ -139,9 +139,32 @@ def emitter_templates(p: Program, flags: dict):
 
 
 # ------------------------------------------------------------------------------------------------ dispatch chains
+def _plain_member_test(t):
+    return enum_member_in_test(t)
+
+
 def dispatch_chain(fn: ast.FunctionDef):
     """The if/elif chain testing the token's main prefix: [(member or None for the final else, test, body)]."""
     best = None
+    # a local that holds "the token's part with prefix M, or None": `x = next((p for p in parts if p[0] == M.value), None)`; then
+    # `x is not None` asks what `M.value in <prefixes of the parts>` asks
+    present = {}
+    for a in ast.walk(fn):
+        if isinstance(a, ast.Assign) and len(a.targets) == 1 and isinstance(a.targets[0], ast.Name) and isinstance(a.value, ast.Call) and isinstance(a.value.func, ast.Name) \
+                and a.value.func.id == "next" and len(a.value.args) == 2 and isinstance(a.value.args[1], ast.Constant) and a.value.args[1].value is None \
+                and isinstance(a.value.args[0], ast.GeneratorExp) and len(a.value.args[0].generators) == 1 and len(a.value.args[0].generators[0].ifs) == 1:
+            g = a.value.args[0].generators[0]
+            m = _plain_member_test(g.ifs[0])
+            if m is not None and isinstance(g.target, ast.Name) and src(a.value.args[0].elt) == g.target.id \
+                    and sum(1 for x in ast.walk(fn) if isinstance(x, ast.Name) and x.id == a.targets[0].id and isinstance(x.ctx, ast.Store)) == 1:
+                present[a.targets[0].id] = m
+
+    def enum_member_in_test(t):
+        r = _plain_member_test(t)
+        if r is None and isinstance(t, ast.Compare) and len(t.ops) == 1 and isinstance(t.ops[0], (ast.IsNot, ast.NotEq)) and isinstance(t.left, ast.Name) \
+                and t.left.id in present and isinstance(t.comparators[0], ast.Constant) and t.comparators[0].value is None:
+            return present[t.left.id]
+        return r
     for n in ast.walk(fn):
         if isinstance(n, ast.If) and enum_member_in_test(n.test) is not None and not _is_elif(n):
             chain = []
@@ -264,9 +287,12 @@ def ts_guard_split(body: list[ast.stmt], bar_time: str = "cur_time_bar"):
 
 def rename_sig(canon: str) -> str:
     """Side-neutral capacity formula: any numerator-like atom -> N, denominator-like -> D."""
-    c = re.sub(r"\b\w*numerator\w*\b", "N", canon)
-    c = re.sub(r"\b\w*denominator\w*\b", "D", c)
+    # (also the field read in place: `pairing[0].numerator`)
+    c = re.sub(r"(?:\b\w+(?:\[\d+\])*\.)?\b\w*numerator\w*\b", "N", canon, flags=re.I)
+    c = re.sub(r"(?:\b\w+(?:\[\d+\])*\.)?\b\w*denominator\w*\b", "D", c, flags=re.I)
     c = c.replace("FIELD(1)", "N").replace("FIELD(2)", "D")
+    if " + " not in c and "(" not in c:
+        c = "*".join(sorted(c.split("*")))          # one product: the order of the factors after renaming says nothing
     return c
 
 
